@@ -39,4 +39,9 @@ CHECKS = {
         "note": "Trusted: TLC; 3 documents exhaustive / 4 sampled; concurrent repeats are raced, not schedule-controlled; totals/aggregations are only compared while no document sits in two fractions (as the property states).",
         "technique": "TLA+ state machine, one replayed behaviour per TLC transition (VIEW + ACTION_CONSTRAINT emission) + -simulate histories, state compared after every step",
     },
+    "C20": {
+        "text": "ProjectCases.tla defines the projection at the level of top-level field-name sets (with two sanity invariants) and TLC enumerates every corpus x field list x mode of the scope; the driver instantiates field values from a palette of JSON shapes and compares the store's field-filtered Fetch and the proxy's fields pipe (also: same ids/order as without the pipe, untouched bytes without a pipe) structurally with the reference.",
+        "note": "Trusted: TLC; value fidelity is sampled from a 22-entry JSON palette rotated by the seed (class-level exhaustive over field-name sets, sampled inside each class); numbers compared by value.",
+        "technique": "TLA+ reference operator, exhaustive TLC case enumeration replayed through the store fetch filter and the proxy fields pipe",
+    },
 }
